@@ -86,6 +86,7 @@ func props() map[string]Prop {
 				{Name: "seq", Pkg: "internal/upload", Harness: "internal_upload", Run: "^TestVerifUploadSeq$", Instrument: uploadInstr, Timeout: 30 * time.Minute},
 				{Name: "conc", Pkg: "internal/upload", Harness: "internal_upload", Run: "^TestVerifUploadConc$", Instrument: uploadInstr, Timeout: 40 * time.Minute},
 				{Name: "race", Pkg: "internal/upload", Harness: "internal_upload", Run: "^TestVerifUploadRace$", Instrument: uploadInstr, Race: true, Timeout: 40 * time.Minute},
+				{Name: "faults", Pkg: "internal/upload", Harness: "internal_upload", Run: "^TestVerifC05Upload$", Instrument: append(append([]string{}, uploadInstr...), "internal/counter"), Timeout: 30 * time.Minute},
 			},
 			Assume: []string{"counter names are valid UTF-8 and sums stay below 2^62 (reports carry int64 in JSON)", "counter files are produced by the independent writer in /verif/ref with the documented metadata"},
 		},
@@ -126,7 +127,7 @@ func props() map[string]Prop {
 			},
 			Assume: []string{
 				"faults are injected at the instrumented package-level os/syscall calls and *os.File methods of internal/counter, internal/mmap and internal/telemetry",
-				"'bounded number of steps' = loop-tick budget 64*mapping size + 2e6 per host call",
+				"'bounded number of steps' = loop-tick budget 150000 + 4*mapping size per host call",
 				"truncation of a file that is currently mapped is outside the quantifier and not generated",
 			},
 		},
